@@ -295,6 +295,14 @@ class _SetSorter(ast.NodeTransformer):
         node.elts = sorted(node.elts, key=ast.dump)
         return node
 
+    def visit_Call(self, node):
+        # frozenset([...]) is printed through list(value): the order is the set's iteration order
+        self.generic_visit(node)
+        if (isinstance(node.func, ast.Name) and node.func.id == 'frozenset' and len(node.args) == 1
+                and not node.keywords and isinstance(node.args[0], ast.List)):
+            node.args[0].elts = sorted(node.args[0].elts, key=ast.dump)
+        return node
+
 
 def normalise_ast(tree):
     return _SetSorter().visit(tree)
